@@ -1,14 +1,16 @@
 import N0Verif.Proofs.Esc
+import N0Verif.Proofs.Ini
 /-!
 # C17 — delimited list / key=value text decodes to what was encoded
 
 Only property statements live here; helper lemmas are in `Proofs/Esc.lean`, the model in
-`Model/Esc.lean` (it follows the code with fix patches C17-a … C17-d applied).
-The INI part of the property (`parse_ini`, `load_ini`) has no Lean model; it is checked on the
-implementation only (harness evaluator `ini`).
+`Model/Esc.lean` (it follows the code with fix patches C17-a … C17-e applied).
+The INI part of the property (`parse_ini`, `load_ini`, `default_parse_value`, `split_pair`, `isnumber`,
+the lines `save_file` writes for a mapping) is modelled in `Model/Ini.lean` (code with fix patches
+C17-f and C17-g applied); its lemmas are in `Proofs/Ini.lean`.
 -/
 namespace N0.C17
-open N0 N0.Py N0.Esc
+open N0 N0.Py N0.Esc N0.Ini
 
 /-! ## `split_with_escape` -/
 
@@ -130,14 +132,15 @@ def dictRoundTrip (d eq : Str) (v : Val) : Option (List (Str × Str)) :=
   | _ => none
 
 /-- **C17 (flat mapping round trip).**  A flat mapping with unique keys that contain no separator
-character and ASCII string values — over the whole reserved alphabet: delimiter, equal tag,
-backslash, braces, brackets, quote — serialises to `k=v;…` and comes back unchanged through
-`deserialize_dict` and `unescape`.  Separators: non-empty, free of backslash, `x` and lower-case hex
-digits, and sharing no character. -/
+character and arbitrary string values — every character, inside and outside ASCII (fix C17-e), the
+whole reserved alphabet included: delimiter, equal tag, backslash, braces, brackets, quote —
+serialises to `k=v;…` and comes back unchanged through `deserialize_dict` and `unescape`.
+Separators: non-empty, free of backslash, `x` and lower-case hex digits, sharing no character, and
+(`WideOk`) free of `u`/`U` if one of their characters is above U+00FF. -/
 theorem C17_dict_roundtrip (d eq : Str) (c : Cls) (m : List (Str × Str))
     (hd : d ≠ []) (heq : eq ≠ []) (hsd : SafeSep d) (hse : SafeSep eq) (hdis : ∀ ch ∈ eq, ch ∉ d)
-    (hkeys : (m.map Prod.fst).Nodup) (hk : ∀ kv ∈ m, Clean d kv.1 ∧ Clean eq kv.1)
-    (hv : ∀ kv ∈ m, ∀ ch ∈ kv.2, ch.toNat < 128) :
+    (hw : WideOk d eq)
+    (hkeys : (m.map Prod.fst).Nodup) (hk : ∀ kv ∈ m, Clean d kv.1 ∧ Clean eq kv.1) :
     dictRoundTrip d eq (flatVal c m) = some m := by
   unfold dictRoundTrip
   rw [serializeDict_flat d eq heq c m]
@@ -145,8 +148,8 @@ theorem C17_dict_roundtrip (d eq : Str) (c : Cls) (m : List (Str × Str))
   have hb : '\\' ∈ dangerous d eq := by simp [dangerous]
   have hdsub : ∀ ch ∈ d, ch ∈ dangerous d eq := by intro ch h; simp [dangerous, h]
   have hesub : ∀ ch ∈ eq, ch ∈ dangerous d eq := by intro ch h; simp [dangerous, h]
-  have h256 : ∀ kv ∈ m, ∀ ch ∈ kv.2, ch.toNat < 256 := fun kv hkv ch hch => by
-    have := hv kv hkv ch hch; omega
+  have hud : (∀ a ∈ dangerous d eq, a.toNat < 0x100) ∨ (∀ c ∈ d, c ≠ 'u' ∧ c ≠ 'U') :=
+    wideOk_dangerous d eq d hw (fun c h => by simp [h])
   -- the list of items
   have hlist : deserializeList (join d (m.map (itemOf d eq))) d false none = .ok (m.map (itemOf d eq)) := by
     cases hm : m with
@@ -163,7 +166,7 @@ theorem C17_dict_roundtrip (d eq : Str) (c : Cls) (m : List (Str × Str))
         rcases hch with (hch | hch) | hch
         · exact (hk kv hkv).1 ch hch
         · exact hdis ch hch
-        · exact escapeValue_clean _ d kv.2 hsd hdsub (h256 kv hkv) ch hch
+        · exact escapeValue_clean _ d kv.2 hsd hdsub hud ch hch
       rw [C17_join_roundtrip_drop_empty d _ none hd hne hclean (by intro e he; cases he)]
       congr 1
       apply List.filter_eq_self.2
@@ -194,21 +197,23 @@ theorem C17_dict_roundtrip (d eq : Str) (c : Cls) (m : List (Str × Str))
   simp only [deserializeDict, hlist, hpairs, hmap, bind, Except.bind, pure, Except.pure]
   rw [dictOfPairs_nodup _ (by rw [List.map_map]; exact hkeys)]
   rw [unescapeDict_ok m (escapeValue (dangerous d eq))
-    (fun kv hkv => unescape_escapeValue _ _ hb (hv kv hkv))]
+    (fun kv _ => unescape_escapeValue _ _ hb)]
 
-/-- **C17 (reserved characters in values are protected).**  The text written for a value contains
-no character of the delimiter or of the equal tag, no brace, bracket or double quote; what it
-contains beyond the harmless characters of the value is the `\\xNN` notation. -/
-theorem C17_values_protected (d eq v : Str) (hsd : SafeSep d) (hse : SafeSep eq)
-    (hv : ∀ a ∈ v, a.toNat < 256) :
+/-- **C17 (reserved characters in values are protected).**  The text written for a value — any
+text — contains no character of the delimiter or of the equal tag, no brace, bracket or double
+quote; what it contains beyond the harmless characters of the value is the `\\xNN` (`\\uNNNN`,
+`\\UNNNNNNNN` for a reserved character above U+00FF) notation. -/
+theorem C17_values_protected (d eq v : Str) (hsd : SafeSep d) (hse : SafeSep eq) (hw : WideOk d eq) :
     Clean d (escapeValue (dangerous d eq) v) ∧ Clean eq (escapeValue (dangerous d eq) v)
       ∧ Clean ['{', '}', '[', ']', '"'] (escapeValue (dangerous d eq) v) :=
-  ⟨escapeValue_clean _ d v hsd (by intro ch h; simp [dangerous, h]) hv,
-   escapeValue_clean _ eq v hse (by intro ch h; simp [dangerous, h]) hv,
+  ⟨escapeValue_clean _ d v hsd (by intro ch h; simp [dangerous, h])
+     (wideOk_dangerous d eq d hw (fun c h => by simp [h])),
+   escapeValue_clean _ eq v hse (by intro ch h; simp [dangerous, h])
+     (wideOk_dangerous d eq eq hw (fun c h => by simp [h])),
    escapeValue_clean _ _ v (by decide) (by
      intro ch h
      simp only [List.mem_cons, List.not_mem_nil, or_false] at h
-     rcases h with h | h | h | h | h <;> simp [dangerous, h]) hv⟩
+     rcases h with h | h | h | h | h <;> simp [dangerous, h]) (Or.inr (by decide))⟩
 
 /-- **C17 (nested mappings serialise).**  On every tree of mappings, lists and scalars in which no
 list directly contains `None`, with every setting of the flags, `serialize_dict` raises nothing.
@@ -228,11 +233,153 @@ theorem C17_nested_serialises_any_flags (c : SCfg) (v : Val) (lvl : Nat) (h : no
     (e : PyErr) (he : ser c lvl v = .error e) : e = .Unsupported :=
   (ser_good c v lvl h e he).1
 
+
+/-! ## INI: `load_ini(save_file(mapping))`, typing of values, `+=`, comments -/
+
+/-- **C17 (typed values).**  `default_parse_value` types a text as `typedSpec` describes its stripped
+form, wherever the model answers (`Exact`: no numeric or white-space character outside ASCII, a
+decimal has at most 15 significant digits, at most 7 of them after the point, and is zero or at
+least `0.0001`). -/
+theorem C17_ini_value_typing (raw : Str) (h : Exact (stripWs raw)) :
+    parseValue raw = .ok (typedSpec (stripWs raw)) :=
+  parseValue_spec raw h
+
+/-- **C17 (which texts are numbers).**  A stripped text `t` comes back
+* as the integer it spells when it is `[+-]digits`;
+* as the decimal it spells (its `repr`: no superfluous zeros) when it is `[+-]digits.digits` with a
+  digit on at least one side of the point;
+* without its quotes when it starts and ends with the same quote (and is at least two characters long);
+* unchanged otherwise — also when `isnumber` lets it through but it is no literal (`.`, `- 5`:
+  fix C17-f). -/
+theorem C17_ini_typing_cases (t : Str) :
+    (isIntLit t = true → typedSpec t = .int (intVal t)) ∧
+    (isIntLit t = false → ∀ ip fp, decParts t = some (ip, fp) →
+        typedSpec t = .flt (decLexeme (isNeg t) ip fp)) ∧
+    (isIntLit t = false → decParts t = none → isQuoted t = true →
+        typedSpec t = .str (t.drop 1).dropLast) ∧
+    (isIntLit t = false → decParts t = none → isQuoted t = false → typedSpec t = .str t) := by
+  refine ⟨?_, ?_, ?_, ?_⟩
+  · intro h; simp [typedSpec, h]
+  · intro h ip fp hd; simp [typedSpec, h, hd]
+  · intro h hd hq; simp [typedSpec, h, hd, textOf, hq]
+  · intro h hd hq; simp [typedSpec, h, hd, textOf, hq]
+
+/-- an integer value of the mapping is written as its digits and comes back as itself; a text value
+comes back as its stripped text, typed -/
+theorem C17_ini_loaded (i : Int) (s : Str) :
+    loaded (.int i) = .int i ∧ loaded (.str s) = typedSpec (stripWs s) :=
+  ⟨loaded_int i, rfl⟩
+
+/-- **C17 (INI round trip, lines).**  For every non-empty equal tag and every mapping whose keys are
+non-empty stripped ASCII names that contain no character of the equal tag, start no comment and do
+not end with `+`, and whose values are scalars on whose printed form the model answers: parsing the
+lines `key eq value` that `save_file` writes gives the dictionary built from the upper-cased keys
+and the typed values (a later entry with the same upper-cased key replaces the value at the place
+of the first, as `dict` does). -/
+theorem C17_ini_roundtrip_scalars (eq : Str) (m : List (Str × Val)) (heq : eq ≠ [])
+    (hm : ∀ kv ∈ m, IniKey eq kv.1 ∧ kv.1.getLast? ≠ some '+' ∧ Exact (stripWs (pyStr kv.2))) :
+    parseIni eq (iniLines eq m) = .ok (dictOfPairs (m.map (fun kv => (upper kv.1, loaded kv.2)))) := by
+  unfold parseIni dictOfPairs
+  rw [parseFrom_iniLines eq heq m hm [], List.foldl_map]
+
+/-- **C17 (INI round trip).**  The statement's case: text keys, values that are integers or texts.
+The mapping loads back with upper-cased keys, integers as integers, and every text typed as
+`C17_ini_typing_cases` says (a text that spells a number loads as that number). -/
+theorem C17_ini_roundtrip (eq : Str) (m : List (Str × Val)) (heq : eq ≠ [])
+    (hk : ∀ kv ∈ m, IniKey eq kv.1 ∧ kv.1.getLast? ≠ some '+') (hv : ∀ kv ∈ m, IniValue kv.2) :
+    parseIni eq (iniLines eq m) = .ok (dictOfPairs (m.map (fun kv => (upper kv.1, loaded kv.2)))) :=
+  C17_ini_roundtrip_scalars eq m heq
+    (fun kv h => ⟨(hk kv h).1, (hk kv h).2, (hv kv h).exact⟩)
+
+/-- the same when the upper-cased keys are pairwise different: entry by entry, in order -/
+theorem C17_ini_roundtrip_unique (eq : Str) (m : List (Str × Val)) (heq : eq ≠ [])
+    (hk : ∀ kv ∈ m, IniKey eq kv.1 ∧ kv.1.getLast? ≠ some '+') (hv : ∀ kv ∈ m, IniValue kv.2)
+    (hu : (m.map (fun kv => upper kv.1)).Nodup) :
+    parseIni eq (iniLines eq m) = .ok (m.map (fun kv => (upper kv.1, loaded kv.2))) := by
+  rw [C17_ini_roundtrip eq m heq hk hv, dictOfPairs_nodup _ (by rw [List.map_map]; exact hu)]
+
+/-- **C17 (INI round trip through the file).**  When moreover no key, no printed value and the equal
+tag contain a line break, reading the text `save_file` writes (`'\n'.join(lines)`) line by line,
+as `load_lines` does, gives those lines back, so `load_ini(save_file(m))` is the same dictionary. -/
+theorem C17_ini_file_roundtrip (eq : Str) (m : List (Str × Val)) (heq : eq ≠ [])
+    (hm : ∀ kv ∈ m, IniKey eq kv.1 ∧ kv.1.getLast? ≠ some '+' ∧ Exact (stripWs (pyStr kv.2)))
+    (hkl : ∀ kv ∈ m, ∀ c ∈ kv.1, c ≠ '\n' ∧ c ≠ '\r') (hel : ∀ c ∈ eq, c ≠ '\n' ∧ c ≠ '\r')
+    (hvl : ∀ kv ∈ m, ∀ c ∈ pyStr kv.2, c ≠ '\n' ∧ c ≠ '\r') :
+    loadIni eq (iniText eq m) = .ok (dictOfPairs (m.map (fun kv => (upper kv.1, loaded kv.2)))) := by
+  unfold loadIni iniText
+  rw [readLines_join _ (iniLines_line_ok eq heq m hkl hel hvl)]
+  exact C17_ini_roundtrip_scalars eq m heq hm
+
+/-- **C17 (`+=` concatenation).**  After any lines that parsed to `acc`, a line `K+=value` — with or
+without blanks between the key and `+` (fix C17-g) — appends the printed typed value to the printed
+value already stored under `K` (the result is a text, also when both were numbers); on a key not
+seen before it stores the value behind the marker character `\x16`. -/
+theorem C17_ini_concat (eq k ws raw : Str) (lines : List Str) (acc : List (Str × Val)) (heq : eq ≠ [])
+    (hk : IniKey eq k) (hws : Blanks eq ws) (hplus : '+' ∉ eq) (hv : Exact (stripWs raw))
+    (hacc : parseIni eq lines = .ok acc) :
+    parseIni eq (lines ++ [k ++ ws ++ ['+'] ++ eq ++ raw]) =
+      .ok (match Val.lookup (upper k) acc with
+           | some old => dictSet (upper k) (.str (pyStr old ++ pyStr (typedSpec (stripWs raw)))) acc
+           | none => dictSet (upper k) (.str (marker :: pyStr (typedSpec (stripWs raw)))) acc) := by
+  unfold parseIni at hacc ⊢
+  rw [parseFrom_append, hacc]
+  simp only [parseFrom]
+  obtain ⟨hig, hpl⟩ := parseLine_key eq (k ++ ws ++ ['+']) raw heq (iniKey_plus eq k ws hk hws hplus) hv
+  unfold stepLine
+  rw [hig, hpl]
+  simp only [Bool.false_eq_true, if_false]
+  have hup : upper (k ++ ws ++ ['+']) = upper k ++ upper ws ++ ['+'] := by
+    simp [upper, toUpperAscii]
+  rw [hup, store_plus _ _ _ _ (upper_key_last k hk.stripped) (upper_blanks ws (fun c hc => (hws c hc).1))]
+  cases Val.lookup (upper k) acc <;> rfl
+
+/-- `K=a` followed by `K+=b` gives the printed `a` followed by the printed `b` -/
+theorem C17_ini_concat_seen (eq k ws a b : Str) (heq : eq ≠ []) (hk : IniKey eq k)
+    (hnp : k.getLast? ≠ some '+') (hws : Blanks eq ws) (hplus : '+' ∉ eq)
+    (ha : Exact (stripWs a)) (hb : Exact (stripWs b)) :
+    parseIni eq [k ++ eq ++ a, k ++ ws ++ ['+'] ++ eq ++ b] =
+      .ok [(upper k, .str (pyStr (typedSpec (stripWs a)) ++ pyStr (typedSpec (stripWs b))))] := by
+  have h1 : parseIni eq [k ++ eq ++ a] = .ok [(upper k, typedSpec (stripWs a))] := by
+    have := C17_ini_roundtrip_scalars eq [(k, .str a)] heq (by
+      intro kv hkv; simp only [List.mem_singleton] at hkv; subst hkv; exact ⟨hk, hnp, ha⟩)
+    simpa [iniLines, pyStr, dictOfPairs, dictSet, loaded] using this
+  have := C17_ini_concat eq k ws b [k ++ eq ++ a] _ heq hk hws hplus hb h1
+  simp only [List.cons_append, List.nil_append] at this
+  rw [this]
+  simp [Val.lookup, dictSet]
+
+/-- `K+=b` on a key not seen before gives the marker followed by the printed `b` -/
+theorem C17_ini_concat_unseen (eq k ws b : Str) (heq : eq ≠ []) (hk : IniKey eq k)
+    (hws : Blanks eq ws) (hplus : '+' ∉ eq) (hb : Exact (stripWs b)) :
+    parseIni eq [k ++ ws ++ ['+'] ++ eq ++ b] =
+      .ok [(upper k, .str (marker :: pyStr (typedSpec (stripWs b))))] := by
+  have := C17_ini_concat eq k ws b [] [] heq hk hws hplus hb rfl
+  simp only [List.nil_append] at this
+  rw [this]
+  simp [Val.lookup, dictSet]
+
+/-- **C17 (comments and blank lines are ignored).**  Lines that are blank after `lstrip()` or start
+(after leading white space) with `#` or `//` can be removed, wherever they stand, without changing
+the result — errors of other lines included. -/
+theorem C17_ini_comments_ignored (eq : Str) (lines : List Str) :
+    parseIni eq (lines.filter (fun l => !isIgnored l)) = parseIni eq lines :=
+  parseFrom_filter eq lines []
+
+/-- the same for one comment line between any two groups of lines -/
+theorem C17_ini_comment_line_ignored (eq : Str) (pre post : List Str) (c : Str) (hc : isIgnored c = true) :
+    parseIni eq (pre ++ c :: post) = parseIni eq (pre ++ post) := by
+  rw [← C17_ini_comments_ignored eq (pre ++ c :: post), ← C17_ini_comments_ignored eq (pre ++ post)]
+  simp [List.filter_append, hc]
+
 /-! ## counter-examples and limits (the model exhibits them; the harness replays them) -/
 
-/-- open finding C17-e: text outside ASCII does not survive `unescape` -/
-theorem C17_nonascii_cex :
-    dictRoundTrip [';'] ['='] (flatVal .plain [(['k'], ['é'])]) = some [(['k'], ['Ã', '©'])] := by
+/-- fixed finding C17-e: text outside ASCII survives `unescape` (before the fix `{'k':'é'}` came
+back as `{'k':'Ã©'}`), and so does a reserved character above U+00FF (it was written `\\x20ac`) -/
+theorem C17_nonascii_example :
+    dictRoundTrip [';'] ['='] (flatVal .plain [(['k'], ['é', '€', ';'])]) = some [(['k'], ['é', '€', ';'])]
+    ∧ serializeDict ['€'] ['='] (flatVal .plain [(['k'], ['a', '€', 'é'])])
+        = .ok (some ['k', '=', 'a', '\\', 'u', '2', '0', 'a', 'c', 'é'])
+    ∧ dictRoundTrip ['€'] ['='] (flatVal .plain [(['k'], ['a', '€', 'é'])]) = some [(['k'], ['a', '€', 'é'])] := by
   decide
 
 /-- a list that directly contains `None` makes `serialize_dict` raise `TypeError` (`str += None`);
@@ -262,12 +409,62 @@ example : pySplit [';'] 2 "a;b;c;d".toList = .ok ["a".toList, "b".toList, "c;d".
 example : deserializeList "a;;b c".toList [';'] true (some '\\') = .ok ["a".toList, [], "b c".toList] := by decide
 example : Clean [';'] "b c".toList := by decide
 example : keyValue ['='] none (some ['D']) "key".toList = .ok ("key".toList, some ['D']) := by decide
-example : SafeSep [';'] ∧ SafeSep ['=', '>'] := by constructor <;> decide
+example : SafeSep [';'] ∧ SafeSep ['=', '>'] ∧ SafeSep ['€'] := by refine ⟨?_, ?_, ?_⟩ <;> decide
+example : WideOk [';'] ['='] ∧ WideOk ['u'] ['é'] ∧ WideOk ['€', ';'] ['=', '>'] ∧ ¬ WideOk ['€'] ['u'] := by
+  refine ⟨?_, ?_, ?_, ?_⟩ <;> decide
 example : escapeValue (dangerous [';'] ['=']) "a=b;{".toList = "a\\x3db\\x3b\\x7b".toList := by decide
 example : dictRoundTrip [';'] ['='] (flatVal .n0 [(['k'], "a;b={\\}\"".toList), ([], [])])
     = some [(['k'], "a;b={\\}\"".toList), ([], [])] := by decide
 example : serializeDict [';'] ['='] (.dict .plain [(['k'], .str []), (['j'], .dict .plain [(['a'], .int 1)])])
     = .ok (some "k=;j={a=1}".toList) := by decide
 example : noNone (.dict .plain [(['k'], .none), (['j'], .list .plain [.dict .plain []])]) = true := by decide
+
+/-! ### non-vacuity, INI -/
+
+-- the docstring of `parse_ini`
+example : parseIni ['='] ["// Ini file".toList, "KEY1 =VALUE1".toList, "# KEY2=VALUE2".toList, "KEY3= VALUE3".toList]
+    = .ok [("KEY1".toList, .str "VALUE1".toList), ("KEY3".toList, .str "VALUE3".toList)] := by decide +kernel
+-- typing
+example : parseValue [' ', '1', '2', ' '] = .ok (.int 12) := by decide +kernel
+example : parseValue ['-', '0', '7'] = .ok (.int (-7)) := by decide +kernel
+example : parseValue ['+', '1', '.', '5', '0'] = .ok (.flt ['1', '.', '5']) := by decide +kernel
+example : parseValue ['-', '.', '5'] = .ok (.flt ['-', '0', '.', '5']) := by decide +kernel
+example : parseValue ['5', '.'] = .ok (.flt ['5', '.', '0']) := by decide +kernel
+example : parseValue ['"', ' ', 'q', '"'] = .ok (.str [' ', 'q']) := by decide +kernel
+example : parseValue ['\'', '1', '\''] = .ok (.str ['1']) := by decide +kernel
+example : parseValue ['.'] = .ok (.str ['.']) := by decide +kernel          -- fix C17-f
+example : parseValue ['-', ' ', '5'] = .ok (.str ['-', ' ', '5']) := by decide +kernel
+example : parseValue ['1', 'e', '3'] = .ok (.str ['1', 'e', '3']) := by decide +kernel
+example : parseValue ['é'] = .ok (.str ['é']) := by decide +kernel
+-- outside `Exact` the model does not answer: long decimals, digits outside ASCII
+example : parseValue ['1', '.', '1', '2', '3', '4', '5', '6', '7', '8'] = .error .Unsupported := by decide +kernel
+example : parseValue ['0', '.', '0', '0', '0', '0', '1'] = .error .Unsupported := by decide +kernel
+example : parseValue ['²'] = .error .Unsupported := by decide +kernel
+example : Exact (stripWs [' ', '1', '.', '5', '0']) := exact_of _ (by decide +kernel) (by decide +kernel)
+example : Exact (stripWs ['é', '"']) := exact_of _ (by decide +kernel) (by decide +kernel)
+example : isIntLit ['+', '5'] = true ∧ decParts ['-', '.', '5'] = some ([], ['5'])
+    ∧ isQuoted ['"', '"'] = true ∧ isQuoted ['"'] = false := by decide +kernel
+-- hypotheses of the round trip
+example : IniKey ['='] "Key 1".toList ∧ IniKey ['=', '>'] "x.y/#".toList ∧ IniKey ['='] ['/'] :=
+  ⟨⟨by decide +kernel, by decide +kernel, by decide +kernel, by decide +kernel, by decide +kernel, by decide +kernel⟩,
+   ⟨by decide +kernel, by decide +kernel, by decide +kernel, by decide +kernel, by decide +kernel, by decide +kernel⟩,
+   ⟨by decide +kernel, by decide +kernel, by decide +kernel, by decide +kernel, by decide +kernel, by decide +kernel⟩⟩
+example : IniValue (.int (-3)) ∧ IniValue (.str " 1.50".toList) ∧ IniValue (.str "'x' ".toList) :=
+  ⟨.int _, .text _ (exact_of _ (by decide +kernel) (by decide +kernel)),
+   .text _ (exact_of _ (by decide +kernel) (by decide +kernel))⟩
+example : parseIni ['='] (iniLines ['='] [("Key".toList, .int (-3)), ("b_1".toList, .str " 1.50".toList),
+      ("n".toList, .str "'x' ".toList), ("key".toList, .str "12".toList)])
+    = .ok [("KEY".toList, .int 12), ("B_1".toList, .flt "1.5".toList), ("N".toList, .str ['x'])] := by decide +kernel
+example : loadIni ['='] (iniText ['='] [("a".toList, .int 1), ("b".toList, .str "x=y".toList)])
+    = .ok [("A".toList, .int 1), ("B".toList, .str "x=y".toList)] := by decide +kernel
+example : readLines "a=1\r\n\rb=2\n\nc".toList = ["a=1".toList, [], "b=2".toList, [], ['c']] := by decide +kernel
+-- `+=`
+example : Blanks ['='] [' ', '\t'] ∧ Blanks ['='] [] := by constructor <;> (unfold Blanks; decide +kernel)
+example : parseIni ['='] ["k=a".toList, "k+=b".toList, "K +=c".toList] = .ok [(['K'], .str "abc".toList)] := by decide +kernel
+example : parseIni ['='] ["k=1".toList, "k+=2.50".toList] = .ok [(['K'], .str "12.5".toList)] := by decide +kernel
+example : parseIni ['='] ["k+= b".toList] = .ok [(['K'], .str [marker, 'b'])] := by decide +kernel
+-- comments and blank lines
+example : isIgnored "  # k=v".toList = true ∧ isIgnored "\t//k=v".toList = true ∧ isIgnored " \t".toList = true
+    ∧ isIgnored "/ k=v".toList = false ∧ isIgnored "k#=v".toList = false := by decide +kernel
 
 end N0.C17
